@@ -133,6 +133,11 @@ func init() {
 							obs = append(obs, o)
 							continue
 						}
+						if via, ok := c.servesPermitted(fname, func(n string) bool { _, p := permitted[n]; return p }); ok {
+							o.Verdict, o.Detail = Proved, "private helper of the documented mutator "+via
+							obs = append(obs, o)
+							continue
+						}
 						if ssaMapIsFresh(recv, fresh, 0, map[ssa.Value]bool{}) {
 							o.Verdict, o.Detail = Proved, "receiver is, on every path, a map this function created or copied"
 						} else {
@@ -363,6 +368,8 @@ func init() {
 					}
 					if why, ok := permitted[u.Name()]; ok {
 						obs = append(obs, mkOb(c, "VIEW.producers", u, s.construct, s.node, Proved, "documented view producer: "+why, false))
+					} else if via, ok := c.privateHelperOf(u.Obj, func(n string) bool { _, p := permitted[n]; return p }, 0); ok {
+						obs = append(obs, mkOb(c, "VIEW.producers", u, s.construct, s.node, Proved, "private helper of the documented view producer "+via, false))
 					} else {
 						obs = append(obs, mkOb(c, "VIEW.producers", u, s.construct, s.node, Violated,
 							"the result shares element slots with a value that existed before the call, in an operation that is not a documented view producer: a later in-place operation on either value (stable-sort) changes the other", true))
